@@ -62,3 +62,8 @@ add("C01", "the declared specs of every catalogue configuration are generated fr
            "the real spec.validate and by the Lean model of validate; shapes and dtypes for all inputs via jax.eval_shape",
     _note + " Value bounds of observation fields are proved only for the modelled counters and, per environment, through the L1 models; for the other fields the "
     "conformance is established by the search (every emitted value validated).")
+
+add("C17", "RubiksCube for ALL n: rubik_l1_move_is_physical (the transliterated index manipulation of utils.py equals the geometric quarter/half turn of a layer), "
+           "bijectivity, cw∘ccw = id, half = cw², cw⁴ = id, conservation, encodings mutually inverse, solved test, reachability/solvability, plus a kernel-evaluated "
+           "cross-check of the tables for n = 2..7; SlidingTilePuzzle for all grid sizes: move_is_swap, opposite_cancel, conserves_multiset, solved_iff_goal, "
+           "walk_solvable; every move of sizes 2..7 on all-distinct-sticker cubes and the sliding puzzle state spaces run through the real code and the model", _note)
